@@ -1,4 +1,4 @@
-// ---- CompactEncoding impls of src/oplog/{entry,header}.rs: ASSUMED in this unit, PROVED in unit codec_oplog ----
+// ---- CompactEncoding impls of src/oplog/entry.rs: ASSUMED in this unit, PROVED in unit codec_oplog ----
 impl CompactEncoding for EntryTreeUpgrade {
     open spec fn spec_enc(&self) -> Seq<u8> { Self::dec_enc(*self) }
     open spec fn dec_enc(d: Self) -> Seq<u8> { upgrade_enc(d) }
@@ -34,62 +34,5 @@ impl CompactEncoding for Entry {
     #[verifier::external_body] fn encode<'a>(&self, buffer: &'a mut [u8]) -> (r: Result<&'a mut [u8], EncodingError>) { unimplemented!() }
     #[verifier::external_body] fn decode(buffer: &[u8]) -> (r: Result<(Self, &[u8]), EncodingError>) { unimplemented!() }
 }
-impl CompactEncoding for HeaderTree {
-    open spec fn spec_enc(&self) -> Seq<u8> { Self::dec_enc(*self) }
-    open spec fn dec_enc(d: Self) -> Seq<u8> { header_tree_enc(d) }
-    open spec fn enc_ok(&self) -> bool { true }
-    open spec fn dec_ok(d: Self) -> bool { true }
-    open spec fn eqv(a: Self, b: Self) -> bool { header_tree_eqv(a, b) }
-    #[verifier::external_body] fn encoded_size(&self) -> (r: Result<usize, EncodingError>)
-        ensures r is Ok ==> r->Ok_0 <= 4 * SIZE_BOUND
-    { unimplemented!() }
-    #[verifier::external_body] fn encode<'a>(&self, buffer: &'a mut [u8]) -> (r: Result<&'a mut [u8], EncodingError>) { unimplemented!() }
-    #[verifier::external_body] fn decode(buffer: &[u8]) -> (r: Result<(Self, &[u8]), EncodingError>) { unimplemented!() }
-}
-impl CompactEncoding for HeaderHints {
-    open spec fn spec_enc(&self) -> Seq<u8> { Self::dec_enc(*self) }
-    open spec fn dec_enc(d: Self) -> Seq<u8> { header_hints_enc(d) }
-    open spec fn enc_ok(&self) -> bool { true }
-    open spec fn dec_ok(d: Self) -> bool { true }
-    open spec fn eqv(a: Self, b: Self) -> bool { header_hints_eqv(a, b) }
-    #[verifier::external_body] fn encoded_size(&self) -> (r: Result<usize, EncodingError>)
-        ensures r is Ok ==> r->Ok_0 <= 2 * SIZE_BOUND
-    { unimplemented!() }
-    #[verifier::external_body] fn encode<'a>(&self, buffer: &'a mut [u8]) -> (r: Result<&'a mut [u8], EncodingError>) { unimplemented!() }
-    #[verifier::external_body] fn decode(buffer: &[u8]) -> (r: Result<(Self, &[u8]), EncodingError>) { unimplemented!() }
-}
-impl CompactEncoding for PartialKeypair {
-    open spec fn spec_enc(&self) -> Seq<u8> { Self::dec_enc(*self) }
-    open spec fn dec_enc(d: Self) -> Seq<u8> { enc_keypair(d) }
-    open spec fn enc_ok(&self) -> bool { true }
-    open spec fn dec_ok(d: Self) -> bool { true }
-    open spec fn eqv(a: Self, b: Self) -> bool { keypair_eqv(a, b) }
-    #[verifier::external_body] fn encoded_size(&self) -> (r: Result<usize, EncodingError>)
-        ensures r is Ok ==> r->Ok_0 <= 99
-    { unimplemented!() }
-    #[verifier::external_body] fn encode<'a>(&self, buffer: &'a mut [u8]) -> (r: Result<&'a mut [u8], EncodingError>) { unimplemented!() }
-    #[verifier::external_body] fn decode(buffer: &[u8]) -> (r: Result<(Self, &[u8]), EncodingError>) { unimplemented!() }
-}
-impl CompactEncoding for Manifest {
-    open spec fn spec_enc(&self) -> Seq<u8> { Self::dec_enc(*self) }
-    open spec fn dec_enc(d: Self) -> Seq<u8> { enc_manifest(d) }
-    open spec fn enc_ok(&self) -> bool { true }
-    open spec fn dec_ok(d: Self) -> bool { true }
-    open spec fn eqv(a: Self, b: Self) -> bool { manifest_eqv(a, b) }
-    #[verifier::external_body] fn encoded_size(&self) -> (r: Result<usize, EncodingError>)
-        ensures r is Ok ==> r->Ok_0 <= 68
-    { unimplemented!() }
-    #[verifier::external_body] fn encode<'a>(&self, buffer: &'a mut [u8]) -> (r: Result<&'a mut [u8], EncodingError>) { unimplemented!() }
-    #[verifier::external_body] fn decode(buffer: &[u8]) -> (r: Result<(Self, &[u8]), EncodingError>) { unimplemented!() }
-}
-impl CompactEncoding for Header {
-    open spec fn spec_enc(&self) -> Seq<u8> { Self::dec_enc(*self) }
-    open spec fn dec_enc(d: Self) -> Seq<u8> { header_enc(d) }
-    open spec fn enc_ok(&self) -> bool { true }
-    open spec fn dec_ok(d: Self) -> bool { true }
-    open spec fn eqv(a: Self, b: Self) -> bool { header_eqv(a, b) }
-    #[verifier::external_body] fn encoded_size(&self) -> (r: Result<usize, EncodingError>)
-    { unimplemented!() }
-    #[verifier::external_body] fn encode<'a>(&self, buffer: &'a mut [u8]) -> (r: Result<&'a mut [u8], EncodingError>) { unimplemented!() }
-    #[verifier::external_body] fn decode(buffer: &[u8]) -> (r: Result<(Self, &[u8]), EncodingError>) { unimplemented!() }
-}
+// the header codecs: contracts of frag/codec_header.rs, ASSUMED here, PROVED in unit codec_header
+//@include-assumed frag/codec_header.rs
